@@ -64,6 +64,20 @@ CLAIMED = {
         "(escape_string - exercised by the example sentences only), comments (the AST has none: they are dropped, which the property's list does not mention), line-length "
         "dependent layout (the formatter has none). Thirteen genuine defects found by this check were repaired in /repo (known_findings.json, fixed:).",
    ref="DESIGN.md section 0.7, C08"),
+ "C09": dict(
+   cat="model_checking", tech="enum-level symbolic execution of rustc MIR + SMT (z3): the printers' path classes (round trip + position independence), FormatWriter as one inductive step, check_formatted and format_files with the file system / formatter as uninterpreted calls",
+   text="Solver-based, bounded, KERNEL of the property: (a) idempotence per node: for every path class of the printers (as under C08: expressions, patterns, types, statements, "
+        "methods, declarations; lists 0..=2, thorough 3) the printed text parses back to the class's own AST AND no path reads a source position, so formatting the re-parsed "
+        "output prints the same text: fmt(fmt(x)) = fmt(x) node by node; (b) FormatWriter, one step from an arbitrary state (level, width, line-start flag symbolic): the "
+        "indentation written is exactly level * width columns, iff at the start of a line; (c) check_formatted(src) = Ok(src == format_source(src)) on every path, errors passed on; "
+        "(d) format_files: with --check and/or --diff (flags symbolic) NO path performs a write; the exit is a failure exactly when a file would change or cannot be read / "
+        "formatted; without the flags exactly the changed files are overwritten, once, each with its own formatted text (0..=2 files, thorough 3; read / write / format / compare "
+        "are uninterpreted calls with arbitrary results). Deviations replay through the real pipeline (`replay fmtrt`: fmt twice + check_formatted on 35 example programs) and "
+        "through the real command function on files (`replay fmtcli`).",
+   note="Kernel-only: idempotence is derived per node (children are atoms) - whole-file effects that are not local to a node (blank lines between declarations, the final "
+        "newline, docstring trimming, imports) are exercised by the example programs only, not decided symbolically; the CLI's argument parsing and exit-code mapping above "
+        "format_files, and `--diff` output text, are not covered.",
+   ref="DESIGN.md section 0.7, C09"),
  "C13": dict(
    cat="model_checking", tech="bounded model checking of the compiled code (Kani/CBMC, symbolic identifier) + enum-level MIR symbolic execution of the emission plan",
    text="Solver-based, bounded, KERNEL of the property: (a) for EVERY identifier-shaped name of 2..8 bytes the keyword table used for escaping (is_keyword) recognises every "
